@@ -51,6 +51,23 @@ func tokenSuite() []modelSpec {
 	add("backtracking", "optional capture followed by an action", func(m *model) *Obj {
 		return m.seq(m.query(m.push(m.opaqueChild(f, false))), m.action("__act0()"))
 	})
+	// actions next to concrete terminals: when an action is reached (and, with the AST, which
+	// action tokens survive) must not depend on what kind of element follows or precedes it
+	add("backtracking", "alternatives opening with an action before a terminal", func(m *model) *Obj {
+		return m.alt(m.seq(m.action("__act0()"), m.char("a"), m.opaqueChild(f, false)), m.seq(m.action("__act1()"), m.opaqueChild(f, false)))
+	})
+	add("backtracking", "two leading actions before a class", func(m *model) *Obj {
+		return m.seq(m.action("__act0()"), m.action("__act1()"), m.rng("a", "f"), m.opaqueChild(f, false))
+	})
+	add("backtracking", "repetition of an action before any character", func(m *model) *Obj {
+		return m.seq(m.star(m.seq(m.action("__act0()"), m.dot())), m.action("__act1()"))
+	})
+	add("backtracking", "action between two terminals", func(m *model) *Obj {
+		return m.alt(m.seq(m.char("a"), m.action("__act0()"), m.char("b")), m.seq(m.char("a"), m.action("__act1()")))
+	})
+	add("backtracking", "action as the whole of an optional part before a terminal", func(m *model) *Obj {
+		return m.seq(m.query(m.seq(m.action("__act0()"), m.char("a"))), m.char("b"), m.action("__act1()"))
+	})
 	add("backtracking", "alternatives sharing a prefix with captures", func(m *model) *Obj {
 		return m.alt(m.seq(m.push(m.char("a")), m.char("c")), m.seq(m.push(m.char("a")), m.rng("b", "y")), m.push(m.dot()))
 	})
@@ -159,6 +176,7 @@ func checkC13(c *Check) {
 		rtRune(a, v)
 		if rtEvalHere(v) {
 			rtMatcherSemantics(a, v)
+			rtBufferSemantics(a, v)
 		}
 	})
 }
